@@ -7,6 +7,30 @@ from __future__ import annotations
 from .alg import Obj, Poly, Undecided, fn, to_poly
 
 
+class T(list):
+    """A tensor value (nested list): python arithmetic on it is element-wise (a plain list concatenates)."""
+
+
+def wrap(x):
+    return T(x) if isinstance(x, list) and not isinstance(x, T) else x
+
+
+def arith(op, a, b):
+    """Element-wise a <op> b with numpy-style broadcasting; op in '+', '-', '*', '/', '**'."""
+    def f(x, y):
+        x, y = to_poly(x), to_poly(y)
+        if op == "+":
+            return x + y
+        if op == "-":
+            return x - y
+        if op == "*":
+            return x * y
+        if op == "/":
+            return x / y
+        return fn("pow", x, y)
+    return wrap(_zip(f, a, b))
+
+
 def _shape(x):
     s = []
     while isinstance(x, (list, tuple)):
@@ -241,23 +265,19 @@ def _where(cond, a, b):
         return x if c_ else y
 
     def z3(c_, x, y):
-        if isinstance(c_, (list, tuple)):
-            n = len(c_)
-            xs = x if isinstance(x, (list, tuple)) else [x] * n
-            ys = y if isinstance(y, (list, tuple)) else [y] * n
-            if len(xs) == 1 and n > 1:
-                xs = list(xs) * n
-            if len(ys) == 1 and n > 1:
-                ys = list(ys) * n
-            if len(xs) != n or len(ys) != n:
-                raise Undecided("where() shape mismatch")
-            return [z3(ci, xi, yi) for ci, xi, yi in zip(c_, xs, ys)]
-        if isinstance(x, (list, tuple)) or isinstance(y, (list, tuple)):
-            n = len(x) if isinstance(x, (list, tuple)) else len(y)
-            xs = x if isinstance(x, (list, tuple)) else [x] * n
-            ys = y if isinstance(y, (list, tuple)) else [y] * n
-            return [z3(c_, xi, yi) for xi, yi in zip(xs, ys)]
-        return pick(c_, x, y)
+        lens = [len(v) for v in (c_, x, y) if isinstance(v, (list, tuple))]
+        if not lens:
+            return pick(c_, x, y)
+        n = max(lens)
+        if any(l_ not in (1, n) for l_ in lens):
+            raise Undecided("where() shape mismatch")
+
+        def at_(v, i):
+            if isinstance(v, (list, tuple)):
+                return v[i if len(v) > 1 else 0]
+            return v
+
+        return [z3(at_(c_, i), at_(x, i), at_(y, i)) for i in range(n)]
 
     return z3(cond, a, b)
 
@@ -301,9 +321,33 @@ def externals(interp_truth=None):
             return interp_truth(v)
         raise Undecided("truth of a symbolic value")
 
+    def _astensor(a, k):
+        x = a[0]
+        if isinstance(x, range):
+            x = [Poly.const(i) for i in x]
+        if k.get("dtype") == "bool":
+            def tb(v):
+                if isinstance(v, bool):
+                    return v
+                p = to_poly(v)
+                if p.is_const():
+                    return p.const_value() != 0
+                raise Undecided("astensor(dtype=bool) of a symbolic value")
+            return _map(tb, x) if isinstance(x, (list, tuple)) else tb(x)
+        return _copy(x) if isinstance(x, (list, tuple)) else x
+
+    def _ew1(name):
+        return lambda a, k: _map(lambda v: fn(name, to_poly(v)), a[0]) if isinstance(a[0], (list, tuple)) else fn(name, to_poly(a[0]))
+
+    def _absf(a, k):
+        return _map(lambda v: fn("abs", to_poly(v)), a[0]) if isinstance(a[0], (list, tuple)) else fn("abs", to_poly(a[0]))
+
     ext = {
         "__elementwise__": True,
-        "astensor": lambda a, k: _copy(a[0]) if isinstance(a[0], (list, tuple)) else a[0],
+        "astensor": _astensor,
+        "divide": lambda a, k: arith("/", a[0], a[1]), "multiply": lambda a, k: arith("*", a[0], a[1]),
+        "power": lambda a, k: arith("**", a[0], a[1]), "add": lambda a, k: arith("+", a[0], a[1]), "subtract": lambda a, k: arith("-", a[0], a[1]),
+        "abs": _absf, "exp": _ew1("exp"), "log": _ew1("log"),
         "tolist": lambda a, k: a[0],
         "concatenate": lambda a, k: _concat(a[0], _axis(k, a)),
         "reshape": lambda a, k: _reshape(a[0], a[1]),
@@ -323,6 +367,12 @@ def externals(interp_truth=None):
         ".any": lambda recv, a, k: any(truth(v) for v in _flatten(recv)),
         ".all": lambda recv, a, k: all(truth(v) for v in _flatten(recv)),
     }
+    for k_, f_ in list(ext.items()):
+        if callable(f_) and not k_.startswith("__"):
+            if k_.startswith("."):
+                ext[k_] = (lambda recv, a, k, f_=f_: wrap(f_(recv, a, k)))
+            else:
+                ext[k_] = (lambda a, k, f_=f_: wrap(f_(a, k)))
     return ext
 
 
